@@ -148,12 +148,37 @@ def arg_name(body, n, proj):
 
 
 class TermBuilder:
-    def __init__(self, body, extra_passthrough=None):
+    def __init__(self, body, extra_passthrough=None, closure_env=False):
         self.body = body
         self.pt = dict(PASS_THROUGH)
         if extra_passthrough:
             self.pt.update(extra_passthrough)
         self.memo = {}
+        self.env = None         # for closures: capture index -> term in the parent body
+        if closure_env and getattr(body, "kind", None) == "closure":
+            self.env = self._closure_env()
+
+    def _closure_env(self):
+        """Terms (in the parent body) of the values this closure captured, by capture index."""
+        b = self.body
+        facts = getattr(b, "facts", None)
+        parent_path = re.sub(r"::\{closure#\d+\}$", "", b.path)
+        parent = facts.bodies.get(parent_path) if facts else None
+        if parent is None:
+            return None
+        ptb = TermBuilder(parent)
+        for bb in parent.reachable():
+            for st in parent.stmts(bb):
+                if st["k"] == "assign" and st["rv"]["r"] == "agg" and st["rv"].get("ak") == "closure" and st["rv"].get("closure") == b.path:
+                    env = {i: ptb.term(o, 2) for i, o in enumerate(st["rv"]["ops"])}
+                    # closure handed to an iterator adaptor: its item argument is an element of the iterator
+                    for c in parent.calls():
+                        if c.decl.startswith("std::iter::Iterator::") and len(c.args) >= 2:
+                            for lf in parent.origins(c.args[-1], passthrough={}):
+                                if lf["kind"] == "agg" and lf["stmt"] is st:
+                                    env["item"] = ("call", "std::iter::Iterator::next", (ptb.term(c.args[0], 2),))
+                    return env
+        return None
 
     # ------------------------------------------------------------------------------------
     def term(self, op, depth=0):
@@ -183,6 +208,16 @@ class TermBuilder:
         k = lf["kind"]
         b = self.body
         if k == "arg":
+            if self.env is not None and lf["n"] == 1:
+                # `_1.N...`: the N-th captured value of the enclosing function
+                pr = [p for p in lf["proj"] if p != "*"]
+                if pr and pr[0].startswith(".") and pr[0][1:].isdigit() and int(pr[0][1:]) in self.env:
+                    base = self.env[int(pr[0][1:])]
+                    rest = tuple(pr[1:])
+                    return simplify_proj(base, rest) if rest else base
+            if self.env is not None and lf["n"] == 2 and "item" in self.env:
+                pr = tuple(p for p in lf["proj"] if p != "*")
+                return simplify_proj(self.env["item"], pr) if pr else self.env["item"]
             return ("arg", arg_name(b, lf["n"], lf["proj"]))
         if k == "const":
             kk = lf["k"]
